@@ -2,7 +2,7 @@
    ONLY statements: each is closed by `exact` of a lemma of theories/ (side conditions on the constants
    regenerated from /repo by the translator - YVGen.Consts, YVGen.Opcodes - are decided by computation). *)
 From Coq Require Import List NArith Bool String Lia.
-From YVGen Require Consts Opcodes AddLocalSites OperandArith.
+From YVGen Require Consts Opcodes AddLocalSites OperandArith ConstantSites.
 From YV Require Import Show Bytecode Skeleton Verifier VerifierProofs VerifierRun VerifierRunProofs.
 Import ListNotations.
 Open Scope N_scope.
@@ -62,6 +62,19 @@ Theorem C04_operands_widened_refuted_narrow :
   arith_all_widened operand_arith_sites_narrow = false /\
   exists a b, a <= 65535 /\ b <= 65535 /\ (a + b) mod 65536 <> a + b.
 Proof. split; [vm_compute; reflexivity|]. exists 32765, 32771. vm_compute. repeat split; discriminate. Qed.
+
+(* ---------- every constant reaches its chunk through make_constant ----------
+   The 65536-constants-per-chunk limit (a constant index is a u16 operand) is enforced in `make_constant` only.
+   A second caller of Chunk::add_constant narrows the index itself (`as u16`) without the check: seeded mutant
+   round 5 did that in `identifier_constant`, so a NAME as 65537th constant named constant 0.  Regenerated from
+   compiler.rs (translator/translate_c04.py); run-time counterpart: limit family `constants_by_kind`. *)
+Theorem C04_side_constants_through_make_constant :
+  ConstantSites.add_constant_sites = ["make_constant"%string] /\ ConstantSites.make_constant_enforces_limit = true.
+Proof. split; reflexivity. Qed.
+Definition add_constant_sites_mutant : list string := ["make_constant"; "identifier_constant"]%string.
+Theorem C04_constants_through_make_constant_refuted_mutant :
+  add_constant_sites_mutant <> ["make_constant"%string] /\ 65536 mod 65536 = 0.
+Proof. split; [discriminate|reflexivity]. Qed.
 
 (* ---------- opcode numbering / names / layouts are those of chunk.rs and vm.rs today ---------- *)
 Theorem C04_opcode_names : map name_of_opcode all_opcodes = Opcodes.opcode_names.
@@ -174,6 +187,8 @@ Print Assumptions C04_add_local_results_checked_refuted_old.
 Print Assumptions C04_side_operands_widened_before_arithmetic.
 Print Assumptions C04_side_handler_sum_recognised.
 Print Assumptions C04_operands_widened_refuted_narrow.
+Print Assumptions C04_side_constants_through_make_constant.
+Print Assumptions C04_constants_through_make_constant_refuted_mutant.
 Print Assumptions C04_opcode_names.
 Print Assumptions C04_opcode_numbering.
 Print Assumptions C04_vm_dispatches_exactly_these.
